@@ -117,9 +117,31 @@ def oracle(rows, blocks, out, case):
         out.fail("block types / origin rows / contents differ from the StarTable segmentation rule",
                  case, blocks, ref, key="segmentation")
         return
-    for b in blocks:
+    for n, b in enumerate(blocks):
         if b["ty"] != "BLANK" and rows[b["first"]: b["first"] + len(b["rows"])] != b["rows"]:
             out.fail("origin row is not the index of the block's first row", case, b, None, key="origin_row")
+            return
+        if b["ty"] == "BLANK":
+            # the origin row of a BLANK block is the row that ended the previous block (a blank-first-cell row or a
+            # `key:` row below the top); its rows are the non-blank-first-cell rows from there up to the next block
+            # (plus that first row itself when it was kept)
+            end = blocks[n + 1]["first"] if n + 1 < len(blocks) else len(rows)
+            k0 = ref_kind(rows[b["first"]])
+            span = rows[b["first"]: end]
+            want = [r for j, r in enumerate(span) if not ref_kind(r).startswith("blank") or (j == 0 and k0 == "blankN")]
+            if not (k0.startswith("blank") or k0 == "key") or want != b["rows"]:
+                out.fail("a BLANK block's origin row is not the row that ended the previous block, or its rows are "
+                         "not the rows from there to the next block", case, b, want, key="blank_origin_row")
+                return
+        # block shape: the type is the kind of the first row, every further row is an ordinary row
+        kinds = [ref_kind(r) for r in b["rows"]]
+        head_ok = {"TABLE": {"table"}, "DIRECTIVE": {"directive"}, "TEMPLATE_ROW": {"template"},
+                   "METADATA": {"plain", "key"}, "BLANK": {"plain", "key", "blankN"}}[b["ty"]]
+        tail_ok = {"plain", "key"} if b["ty"] == "METADATA" else {"plain"}
+        if not kinds or kinds[0] not in head_ok or any(k not in tail_ok for k in kinds[1:]) or \
+                (b["ty"] == "METADATA" and b["first"] != 0):
+            out.fail("block type does not match the marker of its first row / a later row does not continue it",
+                     case, b, kinds, key="block_shape")
             return
 
 
@@ -178,18 +200,33 @@ def run(tier, seed, model_ok, translator, search=False):
             rows = [["**t"], [s], ["y"]]
             n_cls += 1
             _one(rows, {"classify": s}, out, ops, pending, model_ok, prefix_rng=None, record=(n_cls % 997 == 0))
+            # the same string at the very top (METADATA state, where `key:` rows continue the block)
+            _one([[s], ["y"]], {"classify_top": s}, out, ops, pending, model_ok, prefix_rng=None, record=False)
     out.count("classifier_strings", n_cls)
 
     # (c1) exhaustive kind sequences
     maxseq = 5 if thorough else 4
     n_seq = 0
+    cache = {}
     for L in range(0, maxseq + 1):
         for kinds in itertools.product(KINDS, repeat=L):
             rows = [list(KIND_SPELLINGS[k][0]) for k in kinds]
             n_seq += 1
-            _one(rows, {"kinds": list(kinds)}, out, ops, pending, model_ok, prefix_rng=None,
-                 record=(n_seq % 4999 == 0))
+            cache[kinds] = _one(rows, {"kinds": list(kinds)}, out, ops, pending, model_ok, prefix_rng=None,
+                                record=(n_seq % 4999 == 0))
+            # prefix stability at every cut (the set of sequences is prefix-closed: all results are cached)
+            for cut in range(L):
+                pb = cache[kinds[:cut]]
+                if pb is not None and cache[kinds] is not None and pb[:-1] != cache[kinds][: max(len(pb) - 1, 0)]:
+                    out.fail("blocks of a prefix (minus the last) are not a prefix of the blocks of all rows",
+                             {"kinds": list(kinds), "cut": cut}, pb, cache[kinds], key="prefix_stable")
+            # the same kind sequence in other spellings (varied per position)
+            if L:
+                rows2 = [list(KIND_SPELLINGS[k][(n_seq + 3 * j) % len(KIND_SPELLINGS[k])]) for j, k in enumerate(kinds)]
+                _one(rows2, {"kinds": list(kinds), "spelling": n_seq}, out, ops, pending, model_ok, prefix_rng=None,
+                     record=False)
     out.count("kind_sequences_exhaustive", n_seq)
+    out.count("prefix_cuts_on_exhaustive_sequences", sum(len(k) for k in cache))
     out.exhaustive = False
 
     # (c2) random long sequences with varied spellings, plus prefix cuts
@@ -231,7 +268,7 @@ def _one(rows, case, out, ops, pending, model_ok, prefix_rng, record):
         blocks = impl_blocks(rows)
     except Exception as e:   # the splitter itself must not raise on any row sequence
         out.fail("parse_blocks_stable raised", case, repr(e), None, key="raised:" + type(e).__name__)
-        return
+        return None
     if record:
         out.case(case, nontrivial=len(rows) > 0)
     else:
@@ -245,6 +282,7 @@ def _one(rows, case, out, ops, pending, model_ok, prefix_rng, record):
         ops.append({"op": "segment", "rows": grid_to_json(rows)})
         pending.append(("segment", case, [{"ty": b["ty"], "first": b["first"], "rows": grid_to_json(b["rows"])}
                                           for b in blocks]))
+    return blocks
 
 
 def replay(rep):
@@ -253,6 +291,11 @@ def replay(rep):
         rows = _rows_from_json(inp["rows"])
     elif "classify" in inp:
         rows = [["**t"], [inp["classify"]], ["y"]]
+    elif "classify_top" in inp:
+        rows = [[inp["classify_top"]], ["y"]]
+    elif "kinds" in inp and "spelling" in inp:
+        n = inp["spelling"]
+        rows = [list(KIND_SPELLINGS[k][(n + 3 * j) % len(KIND_SPELLINGS[k])]) for j, k in enumerate(inp["kinds"])]
     elif "kinds" in inp:
         rows = [list(KIND_SPELLINGS[k][0]) for k in inp["kinds"]]
     else:
